@@ -143,7 +143,13 @@ func clauseOf(exp expectation, got observation) string {
 		}
 		switch {
 		case strings.HasPrefix(e, "F") && !(isC(g) && tryOf(g) == tryOf(e)):
-			// the reference runs try k's finally here; anything but "try k's catch ran instead" is a skipped finally
+			// the reference runs try k's finally here. If the implementation gets to it later it has
+			// merely carried on somewhere first (e.g. a swallowed throw); otherwise it skipped it
+			for _, later := range got.Toks[min(i, len(got.Toks)):] {
+				if later == e {
+					return "path"
+				}
+			}
 			return "finally-skipped"
 		case isC(e), isC(g):
 			return "dispatch"
@@ -400,6 +406,27 @@ func candidates(p Prog) []Prog {
 				*at(&q, path) = Act{K: k}
 				add(q)
 			}
+		case "x":
+			// is it about the expression at all? statement-level throw of the same class, the plain
+			// assignment form, a simpler operand kind
+			if cls := exprClass(a.Cls); cls == "E0" || cls == "E1" {
+				q := p.clone()
+				*at(&q, path) = Act{K: "call", Cls: cls}
+				add(q)
+			}
+			if a.Form != "plain" {
+				q := p.clone()
+				at(&q, path).Form = "plain"
+				add(q)
+			}
+			for _, k := range exprKinds {
+				if k == a.Cls {
+					break
+				}
+				q := p.clone()
+				at(&q, path).Cls = k
+				add(q)
+			}
 		case "throw":
 			for _, cl := range []string{"E1", "E0", "E2"} {
 				if clsRank[cl] < clsRank[a.Cls] {
@@ -470,7 +497,31 @@ func excluded(p Prog) bool {
 			return true
 		}
 	}
+	for _, f := range exprForms {
+		if exclusions["form/"+f.Name] && usesForm(p.Root, f.Name) {
+			return true
+		}
+	}
 	return exclusions[p.Ctx+"/m"]
+}
+
+// usesClass2: some action of kind k carries the class / operand kind cls.
+func usesClass2(a Act, k, cls string) bool {
+	if a.K == k && a.Cls == cls {
+		return true
+	}
+	if a.K != "try" {
+		return false
+	}
+	if usesClass2(a.Try.Body, k, cls) {
+		return true
+	}
+	for _, c := range a.Try.Catches {
+		if usesClass2(c.Body, k, cls) {
+			return true
+		}
+	}
+	return a.Try.Fin != nil && usesClass2(*a.Try.Fin, k, cls)
 }
 
 // ---- worker ----------------------------------------------------------------------------------------
@@ -568,7 +619,13 @@ func g1Worker(w *pool.W, arg json.RawMessage) {
 			return
 		}
 		red := reduceProg(p.clone(), clause, sh.Seed)
-		key := clause + ":" + red.canon()
+		key, repClause := clause+":"+red.canon(), clause
+		if xf := exprCell(red.Root); xf != "" {
+			// the failure is tied to one expression form (reduction could not turn it into a plain
+			// assignment or a statement-level throw): the table cell is the finding, whatever block
+			// of the try it sits in
+			key, repClause = "expr:"+xf, "expr-throw"
+		}
 		failed[key]++
 		if failed[key] > 1 {
 			return
@@ -585,7 +642,7 @@ func g1Worker(w *pool.W, arg json.RawMessage) {
 				return
 			}
 		}
-		w.Emit(rec{Kind: "fail", Key: key, Clause: clause, Size: red.Root.size()*10 + ctxRank[red.Ctx], Case: g1Case{"g1", red, red.canon(), source(red, sh.Seed), sh.Seed}, Detail: detailOf(rexp, rgot)})
+		w.Emit(rec{Kind: "fail", Key: key, Clause: repClause, Size: red.Root.size()*10 + ctxRank[red.Ctx], Case: g1Case{"g1", red, red.canon(), source(red, sh.Seed), sh.Seed}, Detail: detailOf(rexp, rgot)})
 	})
 	more := map[string]int{}
 	for k, c := range failed {
@@ -616,6 +673,31 @@ func baselines(c *ev.Check) (excl []string, mask string) {
 				excl = append(excl, ctx+"/"+k)
 				c.Assume(fmt.Sprintf("excluded %s/%s: the bare form without any try already deviates (expected %s, observed %s) - a loop/function control-flow defect outside this property; programs using it are not generated", ctx, k, exp.String(), got.String()))
 			}
+		}
+	}
+	// every expression form with a harmless operand: it must parse and evaluate its operands in
+	// the order the reference assumes (operand evaluated twice by isset/empty is tolerated)
+	for _, f := range exprForms {
+		ctx := "top"
+		if f.FuncOnly {
+			ctx = "func"
+		}
+		p := Prog{Ctx: ctx, Root: Act{K: "x", Cls: "OK", Form: f.Name}}
+		exp := reference(p)[0]
+		got := observe(p, c.Seed)
+		if f.Dup {
+			var d []string
+			for _, t := range got.Toks {
+				if t == "X" && len(d) > 0 && d[len(d)-1] == "X" {
+					continue
+				}
+				d = append(d, t)
+			}
+			got.Toks = d
+		}
+		if clauseOf(exp, got) != "" {
+			excl = append(excl, "form/"+f.Name)
+			c.Assume(fmt.Sprintf("excluded expression form %s: with a harmless operand it already deviates (expected %s, observed %s) - an expression-evaluation matter outside this property", f.Name, exp.String(), got.String()))
 		}
 	}
 	// what the two Go-level triggers do outside any try (recorded, not judged)
@@ -758,7 +840,7 @@ func main() {
 				continue
 			}
 			m := mod
-			if fam == "d1i" || ((fam == "d2fin" || fam == "d1x") && quick) {
+			if fam == "d1i" || fam == "d1e" || ((fam == "d2fin" || fam == "d1x") && quick) {
 				m = 2
 			}
 			for r := 0; r < m; r++ {
@@ -825,7 +907,7 @@ func main() {
 
 	// vacuity: every exit path of the statement must have been driven through a finally, and
 	// every dispatch situation must have occurred
-	need := []string{"rt:rth", "finally-on:fallthrough", "finally-on:throw", "finally-on:return", "finally-on:break", "finally-on:continue",
+	need := []string{"rt:rth", "expr:coalL", "expr:interp", "finally-on:fallthrough", "finally-on:throw", "finally-on:return", "finally-on:break", "finally-on:continue",
 		"finally-overrides:throw->return", "finally-overrides:return->return", "dispatch:first", "dispatch:later", "dispatch:none", "rt:rtp", "rt:rt0"}
 	for _, k := range need {
 		if !cov[k] {
